@@ -132,7 +132,7 @@ func clientHandler(f base.ClientFactory, conn net.Conn, proxyURI *url.URL) {
 	// Read the client's SOCKS handshake.
 	socksReq, err := socks5.Handshake(conn)
 	if err != nil {
-		log.Errorf("%s - client failed socks handshake: %s", name, err)
+		log.Errorf("%s - client failed socks handshake: %s", name, log.ElideError(err))
 		return
 	}
 	addrStr := log.ElideAddr(socksReq.Target)
